@@ -202,8 +202,8 @@ Proof.
   - destruct (del && (r0 <? rev)) eqn:C; [|exact W]. apply andb_true_iff in C as [_ C]. apply N.ltb_lt in C.
     simpl. apply forall_dset; [exact W|]. simpl. apply wf_written; [|split; discriminate].
     intros x Hx. pose proof (wf_idx_bounds _ _ _ Wk E x Hx). lia.
-  - simpl. apply forall_dset; [exact W|]. simpl. unfold wf_key in Wk. rewrite E in Wk. rewrite Wk.
-    apply wf_written; [intros x []|split; discriminate].
+  - simpl. apply forall_dset; [exact W|]. simpl. unfold wf_key in Wk. rewrite E in Wk.
+    apply wf_written; [rewrite Wk; intros x []|split; discriminate].
 Qed.
 
 Lemma do_op_wf d n o : WF d -> WF (d_store (do_op d n o)).
@@ -399,39 +399,209 @@ Proof.
 Qed.
 
 (* which version a winning election hands to SetCurrentRevision: the clock after the lock write *)
+Lemma leader_version_tso k v : leader_version k = Some v -> v = tso k.
+Proof. unfold leader_version, describe. destruct (has_comma _); [discriminate|]. congruence. Qed.
+
+Lemma update_ok_tso st k h b n : o_res (do_update st k h b COk (TOk n)) = ROk -> tso (o_cand (do_update st k h b COk (TOk n))) = n.
+Proof.
+  unfold do_update. destruct (tso k =? 0); [discriminate|]. destruct (cas_holds st (lastVal k)); [reflexivity|discriminate].
+Qed.
+
+Lemma create_ok_tso st k h b n : o_res (do_create st k h b COk (TOk n)) = ROk -> tso (o_cand (do_create st k h b COk (TOk n))) = n.
+Proof. unfold do_create. destruct st; [discriminate|reflexivity]. Qed.
+
+Lemma bump_data w a : w_data (bump w a) = w_data w.
+Proof. destruct a; reflexivity. Qed.
+
+Lemma clock_commits e w l d t : clock e (mkW l d (w_commits w)) t = clock e w t.
+Proof. destruct e; reflexivity. Qed.
+
 Lemma elect_version e w p h bc bu t1 t2 w' p' v g wr :
   elect e w p h bc bu t1 t2 = (w', p', EAcquired v, g, wr) ->
   v = clock e w' t2 /\ w_data w' = w_data w /\ p_lead p' = set_current (p_lead p) v.
 Proof.
   unfold elect.
-  destruct (o_res (do_get (w_lock w) (p_lock p) GOk (TOk (clock e w t1)))) eqn:G; try discriminate.
-  - (* Get ok -> Update *)
-    set (g0 := do_get (w_lock w) (p_lock p) GOk (TOk (clock e w t1))) in *.
-    set (ap := cas_holds (w_lock w) (lastVal (o_cand g0)) && negb (tso (o_cand g0) =? 0)).
+  set (g0 := do_get (w_lock w) (p_lock p) GOk (TOk (clock e w t1))).
+  destruct (o_res g0) eqn:G; try discriminate.
+  - set (ap := cas_holds (w_lock w) (lastVal (o_cand g0)) && negb (tso (o_cand g0) =? 0)).
     set (w1 := bump w ap).
-    destruct (o_res (do_update (w_lock w) (o_cand g0) h bu COk (TOk (clock e w1 t2)))) eqn:U; try discriminate.
-    unfold leader_version, describe.
-    destruct (has_comma match holder (o_cand (do_update (w_lock w) (o_cand g0) h bu COk (TOk (clock e w1 t2)))) with
-                        | [] => empty_word | _ :: _ => holder (o_cand (do_update (w_lock w) (o_cand g0) h bu COk (TOk (clock e w1 t2)))) end);
-      try discriminate.
+    set (u := do_update (w_lock w) (o_cand g0) h bu COk (TOk (clock e w1 t2))).
+    destruct (o_res u) eqn:U; try discriminate.
+    destruct (leader_version (o_cand u)) as [vv|] eqn:LV; try discriminate.
     intros H. injection H as <- <- <- _ _.
-    unfold do_update in U |- *. destruct (tso (o_cand g0) =? 0) eqn:T; [discriminate|].
-    destruct (cas_holds (w_lock w) (lastVal (o_cand g0))) eqn:C; [|discriminate].
-    cbn [o_cand tso tval]. split; [|split; [|reflexivity]].
-    + unfold clock. destruct e; reflexivity.
-    + subst w1 ap. rewrite C, T. reflexivity.
-  - (* NotFound -> Create *)
-    set (g0 := do_get (w_lock w) (p_lock p) GOk (TOk (clock e w t1))) in *.
-    set (ap := match w_lock w with None => true | Some _ => false end).
+    apply leader_version_tso in LV. subst u. rewrite (update_ok_tso _ _ _ _ _ U) in LV.
+    cbn [w_data p_lead]. rewrite clock_commits. subst w1. rewrite bump_data. auto.
+  - set (ap := match w_lock w with None => true | Some _ => false end).
     set (w1 := bump w ap).
-    destruct (o_res (do_create (w_lock w) (o_cand g0) h bc COk (TOk (clock e w1 t2)))) eqn:U; try discriminate.
-    unfold leader_version, describe.
-    destruct (has_comma match holder (o_cand (do_create (w_lock w) (o_cand g0) h bc COk (TOk (clock e w1 t2)))) with
-                        | [] => empty_word | _ :: _ => holder (o_cand (do_create (w_lock w) (o_cand g0) h bc COk (TOk (clock e w1 t2)))) end);
-      try discriminate.
+    set (u := do_create (w_lock w) (o_cand g0) h bc COk (TOk (clock e w1 t2))).
+    destruct (o_res u) eqn:U; try discriminate.
+    destruct (leader_version (o_cand u)) as [vv|] eqn:LV; try discriminate.
     intros H. injection H as <- <- <- _ _.
-    unfold do_create in U |- *. destruct (w_lock w) eqn:Lk; [discriminate|].
-    cbn [o_cand tso tval]. split; [|split; [|reflexivity]].
-    + unfold clock. destruct e; reflexivity.
-    + subst w1 ap. reflexivity.
+    apply leader_version_tso in LV. subst u. rewrite (create_ok_tso _ _ _ _ _ U) in LV.
+    cbn [w_data p_lead]. rewrite clock_commits. subst w1. rewrite bump_data. auto.
+Qed.
+
+(* ---------- the world-level run and the data-level run agree ---------- *)
+
+Definition n_ok (rs : list hres) : N := N.of_nat (length (filter (fun r => hclass_is_ok (h_class r)) rs)).
+
+Lemma do_op_commit_ok d n o : d_commit (do_op d n o) = hclass_is_ok (h_class (d_res (do_op d n o))).
+Proof.
+  destruct o as [k v|k v prev|k prev]; cbn [do_op].
+  - destruct (create_at d k v (n + 1)) as [d' ok]. destruct ok; reflexivity.
+  - destruct prev as [|pp].
+    + destruct (create_at d k v (n + 1)) as [d' ok]. destruct ok; reflexivity.
+    + destruct (n + 1 <? N.pos pp); [reflexivity|].
+      destruct (k_idx (dget d k)) as [[r0 [|]]|]; try reflexivity.
+      destruct (r0 =? N.pos pp); reflexivity.
+  - destruct (get_latest (dget d k)) as [[val modr]|]; [|reflexivity].
+    destruct ((0 <? prev) && (n + 1 <? prev)); [reflexivity|].
+    destruct ((0 <? prev) && negb (prev =? modr)); [reflexivity|].
+    destruct (n + 1 <=? modr); [reflexivity|].
+    destruct (k_idx (dget d k)) as [[r0 [|]]|]; try reflexivity.
+    destruct (r0 =? modr); reflexivity.
+Qed.
+
+Lemma serve_all_run_ops os : forall w p,
+  let '(w', p', rs) := serve_all w p os in
+  let '(d', n', rs') := run_ops (w_data w) (deal (p_lead p)) os in
+  w_data w' = d' /\ deal (p_lead p') = n' /\ rs = rs' /\ w_lock w' = w_lock w /\
+  w_commits w' = w_commits w + n_ok rs.
+Proof.
+  induction os as [|o tl IH]; intros w p; cbn [serve_all run_ops].
+  - repeat split. unfold n_ok; simpl. lia.
+  - unfold serve at 1.
+    set (out := do_op (w_data w) (deal (p_lead p)) o).
+    set (w1 := bump (mkW (w_lock w) (d_store out) (w_commits w)) (d_commit out)).
+    set (p1 := mkP (p_lock p) (mkL (deal (p_lead p) + 1) (deal (p_lead p) + 1))).
+    specialize (IH w1 p1).
+    destruct (serve_all w1 p1 tl) as [[w2 p2] rs].
+    assert (Hd : w_data w1 = d_store out) by (subst w1; destruct (d_commit out); reflexivity).
+    assert (Hl : w_lock w1 = w_lock w) by (subst w1; destruct (d_commit out); reflexivity).
+    assert (Hn : deal (p_lead p1) = deal (p_lead p) + 1) by reflexivity.
+    rewrite Hd, Hn in IH.
+    destruct (run_ops (d_store out) (deal (p_lead p) + 1) tl) as [[d' n'] rs'].
+    destruct IH as [A [B [C [D E]]]]. repeat split; try assumption; try congruence.
+    rewrite E. unfold n_ok. cbn [filter].
+    assert (Hc : w_commits w1 = w_commits w + (if hclass_is_ok (h_class (d_res out)) then 1 else 0)).
+    { pose proof (do_op_commit_ok (w_data w) (deal (p_lead p)) o) as Hk. fold out in Hk.
+      subst w1. rewrite <- Hk. destruct (d_commit out); cbn [bump w_commits]; lia. }
+    rewrite Hc. destruct (hclass_is_ok (h_class (d_res out))); cbn [length]; lia.
+Qed.
+
+Lemma n_ok_all rs : Forall (fun r => h_class r = HOk) rs -> n_ok rs = N.of_nat (length rs).
+Proof.
+  unfold n_ok. induction 1 as [|r tl H _ IH]; [reflexivity|]. cbn [filter]. rewrite H. cbn [hclass_is_ok length].
+  apply Nat2N.inj in IH. rewrite IH. reflexivity.
+Qed.
+
+Lemma elect_commits e w p h bc bu t1 t2 w' p' r g wr :
+  elect e w p h bc bu t1 t2 = (w', p', r, g, wr) -> w_commits w <= w_commits w'.
+Proof.
+  unfold elect.
+  set (g0 := do_get (w_lock w) (p_lock p) GOk (TOk (clock e w t1))).
+  assert (B : forall a, w_commits w <= w_commits (bump w a)) by (intros [|]; simpl; lia).
+  destruct (o_res g0) eqn:G.
+  - set (ap := cas_holds (w_lock w) (lastVal (o_cand g0)) && negb (tso (o_cand g0) =? 0)).
+    destruct (o_res (do_update _ _ h bu COk _)); try destruct (leader_version _);
+      intros H; injection H as <- _ _ _ _; cbn [w_commits]; apply B.
+  - set (ap := match w_lock w with None => true | Some _ => false end).
+    destruct (o_res (do_create _ _ h bc COk _)); try destruct (leader_version _);
+      intros H; injection H as <- _ _ _ _; cbn [w_commits]; apply B.
+  - intros H; injection H as <- _ _ _ _; lia.
+  - intros H; injection H as <- _ _ _ _; lia.
+  - intros H; injection H as <- _ _ _ _; lia.
+  - intros H; injection H as <- _ _ _ _; lia.
+Qed.
+
+(* an acquiring election always commits its lock write: Badger's clock moves by one *)
+Lemma elect_acquired_commits e w p h bc bu t1 t2 w' p' v g wr :
+  elect e w p h bc bu t1 t2 = (w', p', EAcquired v, g, wr) -> w_commits w' = w_commits w + 1.
+Proof.
+  unfold elect.
+  set (g0 := do_get (w_lock w) (p_lock p) GOk (TOk (clock e w t1))).
+  destruct (o_res g0) eqn:G; try discriminate.
+  - set (ap := cas_holds (w_lock w) (lastVal (o_cand g0)) && negb (tso (o_cand g0) =? 0)).
+    set (u := do_update (w_lock w) (o_cand g0) h bu COk (TOk (clock e (bump w ap) t2))).
+    destruct (o_res u) eqn:U; try discriminate.
+    destruct (leader_version (o_cand u)); try discriminate.
+    intros H; injection H as <- _ _ _ _. cbn [w_commits].
+    assert (ap = true).
+    { subst u. unfold do_update in U. destruct (tso (o_cand g0) =? 0) eqn:T; [discriminate|].
+      destruct (cas_holds (w_lock w) (lastVal (o_cand g0))) eqn:C; [|discriminate]. reflexivity. }
+    rewrite H. reflexivity.
+  - set (ap := match w_lock w with None => true | Some _ => false end).
+    set (u := do_create (w_lock w) (o_cand g0) h bc COk (TOk (clock e (bump w ap) t2))).
+    destruct (o_res u) eqn:U; try discriminate.
+    destruct (leader_version (o_cand u)); try discriminate.
+    intros H; injection H as <- _ _ _ _. cbn [w_commits].
+    assert (ap = true).
+    { subst u. unfold do_create in U. subst ap. destruct (w_lock w); [discriminate|reflexivity]. }
+    rewrite H. reflexivity.
+Qed.
+
+(* environment clocks: a new leader elected at clock reading t2 >= old base + attempts is ahead *)
+Lemma clock_ahead_env_world e w k b os h bc bu t1 t2 p w' p' v g wr :
+  e <> EBadger -> Good (w_data w) b ->
+  let '(w1, _, _) := serve_all w (mkP k (mkL b b)) os in
+  b + N.of_nat (length os) <= t2 ->
+  elect e w1 p h bc bu t1 t2 = (w', p', EAcquired v, g, wr) ->
+  v = t2 /\ dmax (w_data w') <= v /\ Good (w_data w') v.
+Proof.
+  intros He G. pose proof (serve_all_run_ops os w (mkP k (mkL b b))) as S.
+  destruct (serve_all w (mkP k (mkL b b)) os) as [[w1 p1] rs]. cbn [p_lead deal] in S.
+  pose proof (clock_ahead_env (w_data w) b os t2 G) as C.
+  destruct (run_ops (w_data w) b os) as [[d' n'] rs']. destruct S as [Sd _].
+  intros L E. destruct (elect_version _ _ _ _ _ _ _ _ _ _ _ _ _ E) as [Ev [Ed _]].
+  specialize (C L). destruct C as [C1 C2].
+  assert (v = t2) by (rewrite Ev; destruct e; try reflexivity; congruence).
+  subst v. rewrite Ed, Sd, H. auto.
+Qed.
+
+(* Badger: if every attempt of the old leader commits, the transaction counter keeps up *)
+Lemma clock_ahead_badger_all_commit w k os h bc bu t1 t2 p w' p' v g wr :
+  let b := w_commits w in
+  Good (w_data w) b ->
+  let '(w1, _, rs) := serve_all w (mkP k (mkL b b)) os in
+  Forall (fun r => h_class r = HOk) rs ->
+  elect EBadger w1 p h bc bu t1 t2 = (w', p', EAcquired v, g, wr) ->
+  dmax (w_data w') < v /\ Good (w_data w') v.
+Proof.
+  intros b G. pose proof (serve_all_run_ops os w (mkP k (mkL b b))) as S.
+  destruct (serve_all w (mkP k (mkL b b)) os) as [[w1 p1] rs]. cbn [p_lead deal] in S.
+  pose proof (max_stored (w_data w) b os G) as M. pose proof (run_ops_good os (w_data w) b G) as RG.
+  destruct (run_ops (w_data w) b os) as [[d' n'] rs']. destruct S as [Sd [_ [Sr [_ Sc]]]].
+  destruct M as [_ M]. destruct RG as [RG [_ RL]].
+  intros A E. destruct (elect_version _ _ _ _ _ _ _ _ _ _ _ _ _ E) as [Ev [Ed _]].
+  pose proof (elect_acquired_commits _ _ _ _ _ _ _ _ _ _ _ _ _ E) as Ec.
+  rewrite (n_ok_all _ A) in Sc. subst rs'. rewrite RL in Sc.
+  cbn [clock] in Ev. assert (Hv : dmax (w_data w') < v) by (rewrite Ed, Sd; fold b in Sc; lia).
+  split; [exact Hv|]. apply good_split. apply good_split in RG as [W _]. rewrite Ed, Sd. split; [exact W|]. rewrite Ed, Sd in Hv. lia.
+Qed.
+
+(* per-engine statement for the environment clocks, and the complement of finding C15-F1 *)
+Definition clock_ahead_env_statement (e : engine) : Prop :=
+  forall w k b os h bc bu t1 t2 p w' p' v g wr,
+  Good (w_data w) b ->
+  let '(w1, _, _) := serve_all w (mkP k (mkL b b)) os in
+  b + N.of_nat (length os) <= t2 ->
+  elect e w1 p h bc bu t1 t2 = (w', p', EAcquired v, g, wr) ->
+  v = t2 /\ dmax (w_data w') <= v /\ Good (w_data w') v.
+
+Lemma clock_ahead_memkv : clock_ahead_env_statement EMem.
+Proof. intros w k b os h bc bu t1 t2 p w' p' v g wr. exact (clock_ahead_env_world EMem w k b os h bc bu t1 t2 p w' p' v g wr ltac:(discriminate)). Qed.
+
+Lemma clock_ahead_tikv : clock_ahead_env_statement ETikv.
+Proof. intros w k b os h bc bu t1 t2 p w' p' v g wr. exact (clock_ahead_env_world ETikv w k b os h bc bu t1 t2 p w' p' v g wr ltac:(discriminate)). Qed.
+
+Lemma safe_except_F1 (e : engine) d v :
+  WF d ->
+  ~ (e = EBadger /\ v < dmax d) ->
+  (e <> EBadger -> dmax d <= v) ->
+  Good d v /\ list_at d v = list_latest d.
+Proof.
+  intros W NF Henv.
+  assert (D : dmax d <= v).
+  { destruct e; try (apply Henv; discriminate). destruct (N.le_gt_cases (dmax d) v); [assumption|]. exfalso. apply NF. auto. }
+  exact (conj (proj1 (safe_if_ahead d v W D)) (proj1 (proj2 (safe_if_ahead d v W D)))).
 Qed.
